@@ -331,11 +331,13 @@ pub(crate) fn mode(entry: &VfsEntry, octal: u32, sym: &str) -> RvResult<u32> {
     let mut chars: Vec<char> = sym.chars().rev().collect();
 
     let mut state = State::Target;
+    let mut complete = true; // tracks that the clause being parsed got all its segments
     while let Some(mut c) = chars.pop() {
         match state {
             State::Target => {
                 group = 0; // reset group for next chmod
                 op = '0'; // reset op for next chmod
+                complete = false;
 
                 loop {
                     if c != 'd' && c != 'f' && c != 'a' && c != ':' {
@@ -350,6 +352,7 @@ pub(crate) fn mode(entry: &VfsEntry, octal: u32, sym: &str) -> RvResult<u32> {
                                 break;
                             }
                         }
+                        complete = true;
                         break;
                     } else if c == ':' {
                         state = State::Group;
@@ -416,8 +419,14 @@ pub(crate) fn mode(entry: &VfsEntry, octal: u32, sym: &str) -> RvResult<u32> {
                     '+' => mode |= group & perm,
                     _ => mode = (!group & mode) | (group & perm),
                 }
+                complete = true;
             },
         }
+    }
+
+    // The symbols ended in the middle of a clause
+    if !complete {
+        return Err(VfsError::InvalidChmod(sym.to_string()).into());
     }
 
     Ok(mode)
